@@ -788,6 +788,12 @@ class CommandPipeline:
     def _close_prev_procs(self):
         """Closes all but the last proc's stdout."""
         sched_point("pipelines._close_prev_procs")
+        # Close the read end of *every* connecting pipe first: stage k can only
+        # finish once stage k+1 is unblocked, so closing and waiting stage by
+        # stage runs into the 3 s timeout below and leaves stage k un-reaped.
+        for s in self.specs[:-1]:
+            for ch in s.pipe_channels:
+                ch.close_reader()
         for s, p in zip(self.specs[:-1], self.procs[:-1], strict=False):
             self._safe_close(s.stdin)
             self._safe_close(s.stderr)
